@@ -371,10 +371,135 @@ fn cbor_rt(tx: &Transaction) -> String {
     if via_hex.as_deref() != Some(&s[..]) {
         return "HEXDIFF".into();
     }
-    match Transaction::from_compact_bytes(&s) {
+    let back = Transaction::from_compact_bytes(&s);
+    // from_compact_hex must agree with from_compact_bytes
+    let back_hex = Transaction::from_compact_hex(&hex::encode(&s));
+    match (&back, &back_hex) {
+        (Ok(a), Ok(b2)) if a == b2 => {}
+        (Err(_), Err(_)) => {}
+        _ => return "HEXDIFF".into(),
+    }
+    match back {
         Ok(t2) => tx_flags(tx, &t2),
         Err(_) => "ERR".into(),
     }
+}
+fn txin_cbor_rt(i: &TxIn) -> String {
+    let s = match i.to_compact_bytes() {
+        Ok(s) => s,
+        Err(_) => return "SERERR".into(),
+    };
+    if i.to_compact_hex().ok().and_then(|h| hex::decode(h).ok()).as_deref() != Some(&s[..]) {
+        return "HEXDIFF".into();
+    }
+    let back = TxIn::from_compact_bytes(&s);
+    match (&back, &TxIn::from_compact_hex(&hex::encode(&s))) {
+        (Ok(a), Ok(b2)) if a == b2 => {}
+        (Err(_), Err(_)) => {}
+        _ => return "HEXDIFF".into(),
+    }
+    match back {
+        Ok(i2) => {
+            let same_bytes = match (i.to_bytes(), i2.to_bytes()) {
+                (Ok(x), Ok(y)) => x == y,
+                _ => false,
+            };
+            format!("OK:{};{};{}", b(*i == i2), b(same_bytes), show_txin(&i2))
+        }
+        Err(_) => "ERR".into(),
+    }
+}
+fn cache_flags(t: &Transaction) -> String {
+    t.verif_hash_cache().iter().map(|x| if x.is_some() { '1' } else { '0' }).collect()
+}
+/// serialise a transaction whose sighash cache is filled; nothing of the cache may reach the encodings and a decoded
+/// transaction starts with an empty cache
+fn cached_rt(fresh: &Transaction) -> String {
+    let mut tx = fresh.clone();
+    if tx.get_ninputs() > 0 {
+        let _ = tx.sighash_preimage(bsv::SigHash::InputsOutputs, 0, &Script::default(), 0);
+    }
+    let before = cache_flags(&tx);
+    let cl = tx.clone();
+    let clone_ok = cl == tx && cl.verif_hash_cache() == tx.verif_hash_cache() && cl.to_json_string().ok() == tx.to_json_string().ok()
+        && cl.to_compact_bytes().ok() == tx.to_compact_bytes().ok();
+    let (j, c) = match (tx.to_json_string(), tx.to_compact_bytes()) {
+        (Ok(j), Ok(c)) => (j, c),
+        _ => return "SERERR".into(),
+    };
+    let noleak = format!(
+        "{}{}{}",
+        b(Some(&j) == fresh.to_json_string().ok().as_ref()),
+        b(tx.to_json().ok().map(|v| v.to_string()) == fresh.to_json().ok().map(|v| v.to_string())),
+        b(Some(&c) == fresh.to_compact_bytes().ok().as_ref())
+    );
+    let side = |r: Result<Transaction, bsv::BSVErrors>| -> String {
+        match r {
+            Ok(t2) => {
+                let same_bytes = match (tx.to_bytes(), t2.to_bytes()) {
+                    (Ok(x), Ok(y)) => x == y,
+                    _ => false,
+                };
+                let same_id = match (tx.get_id_hex(), t2.get_id_hex()) {
+                    (Ok(x), Ok(y)) => x == y,
+                    _ => false,
+                };
+                // `==` on transactions also compares the private cache, so compare with the never-hashed original
+                format!("{}{}{}{}", cache_flags(&t2), b(t2 == *fresh), b(same_bytes), b(same_id))
+            }
+            Err(_) => "ERR".into(),
+        }
+    };
+    format!(
+        "OK:{};{};{};{};{};{}",
+        before,
+        b(clone_ok),
+        noleak,
+        side(Transaction::from_json_string(&j)),
+        side(Transaction::from_compact_bytes(&c)),
+        side(Transaction::from_compact_hex(&hex::encode(&c)))
+    )
+}
+/// the same transaction rebuilt through the construction / mutation API
+fn rebuild(t: &Transaction) -> Transaction {
+    let mut tx = Transaction::new(0, 0);
+    tx.set_version(t.get_version());
+    tx.set_nlocktime(t.get_n_locktime());
+    let mut ins = Vec::new();
+    for k in 0..t.get_ninputs() {
+        let i = t.get_input(k).unwrap();
+        let mut n = TxIn::new(&i.get_prev_tx_id(None), i.get_vout(), &i.get_unlocking_script(), Some(i.get_sequence()));
+        if let Some(v) = i.get_satoshis() {
+            n.set_satoshis(v);
+        }
+        if let Some(l) = i.get_locking_script() {
+            n.set_locking_script(&l);
+        }
+        ins.push(n);
+    }
+    let mut outs = Vec::new();
+    for k in 0..t.get_noutputs() {
+        let o = t.get_output(k).unwrap();
+        outs.push(TxOut::new(o.get_satoshis(), &o.get_script_pub_key()));
+    }
+    // half through the bulk calls, the rest one by one, the first input once more through set_input
+    let hi = ins.len() / 2;
+    tx.add_inputs(ins[..hi].to_vec());
+    for i in &ins[hi..] {
+        tx.add_input(i);
+    }
+    let ho = outs.len() / 2;
+    tx.add_outputs(outs[..ho].to_vec());
+    for o in &outs[ho..] {
+        tx.add_output(o);
+    }
+    if !ins.is_empty() {
+        tx.set_input(0, &ins[0]);
+    }
+    if !outs.is_empty() {
+        tx.set_output(0, &outs[0]);
+    }
+    tx
 }
 fn res_tx(r: Result<Transaction, bsv::BSVErrors>) -> String {
     match r {
@@ -410,20 +535,23 @@ pub fn run(op: &str, args: &[String]) -> Option<String> {
         "txin.cbor_roundtrip" => {
             let tx = get_tx!(args, 0);
             let k = some_or_bad!(arg_u64(args, 2)) as usize;
-            let i = some_or_bad!(tx.get_input(k));
-            let s = match i.to_compact_bytes() {
-                Ok(s) => s,
-                Err(_) => return Some("SERERR".into()),
-            };
-            match TxIn::from_compact_bytes(&s) {
-                Ok(i2) => {
-                    let same_bytes = match (i.to_bytes(), i2.to_bytes()) {
-                        (Ok(x), Ok(y)) => x == y,
-                        _ => false,
-                    };
-                    format!("OK:{};{};{}", b(i == i2), b(same_bytes), show_txin(&i2))
-                }
-                Err(_) => "ERR".into(),
+            txin_cbor_rt(&some_or_bad!(tx.get_input(k)))
+        }
+        "bits.txin_cbor_roundtrip" => {
+            let tx = bits_tx(some_or_bad!(args.get(0).and_then(|a| bits_arg(a))));
+            txin_cbor_rt(&tx.get_input(0).unwrap())
+        }
+        "tx.cached_roundtrip" => cached_rt(&get_tx!(args, 0)),
+        "bits.cached_roundtrip" => cached_rt(&bits_tx(some_or_bad!(args.get(0).and_then(|a| bits_arg(a))))),
+        "tx.built_json_roundtrip" => json_rt(&rebuild(&get_tx!(args, 0))),
+        "tx.built_cbor_roundtrip" => cbor_rt(&rebuild(&get_tx!(args, 0))),
+        "txout.json" => {
+            let tx = get_tx!(args, 0);
+            let k = some_or_bad!(arg_u64(args, 2)) as usize;
+            let o = some_or_bad!(tx.get_output(k));
+            match (o.to_json_string(), o.to_json()) {
+                (Ok(s), Ok(v)) => format!("OK:{};{}", show_bytes(s.as_bytes()), show_bytes(v.to_string().as_bytes())),
+                _ => "ERR".into(),
             }
         }
         "tx.to_json" => {
